@@ -71,3 +71,72 @@ def interp_array(V, even, regime):
         for k in V.idx(0, m_out):
             out.prove('within-input-range', T.sand(T.sle(lo, y[k]), T.sle(y[k], hi)), budget_ms=20000)
         out.unchanged('x', x)
+
+
+# ------------------------------------------------------------------------------------------------ object level
+@unit('C14', 'interp_to_approx_dt', functions=['eqsig.fns.time_step.interp_to_approx_dt'],
+      cases=[dict(even=e, regime=r) for e in (True, False) for r in ('refine', 'decimate')], modes=('unbounded',))
+def interp_object(V, even, regime):
+    st = {}
+
+    def setup():
+        import contracts_common_signal as CS
+        CS.install_cache_summaries(V)
+        n = V.size('n', 2)
+        x = V.array('x', n, origin='param')
+        dt, tgt = V.real('dt'), V.real('target_dt')
+        V.assume(dt > 0, tgt > 0, dt > tgt if regime == 'refine' else dt < tgt)
+        asig = S.make_signal(V, 'AccSignal', x, dt)
+        st.update(n=n, x=x, dt=dt, tgt=tgt)
+        return dict(asig=asig, target_dt=tgt, even=even)
+    f_arr = V.itp.get_function(FN)
+    for out in V.run('eqsig.fns.time_step.interp_to_approx_dt', setup):
+        if not out.no_raise():
+            continue
+        r = out.result
+        want_vals, want_dt = V.itp.call(f_arr, [st['x'], st['dt']], dict(target_dt=st['tgt'], even=even))
+        out.prove('returns-an-AccSignal', getattr(getattr(r, 'cls', None), 'name', None) == 'AccSignal')
+        import contracts_common_signal as CS
+        out.prove('values-are-the-array-level-result', CS.values_equal(V, r.attrs['_values'], want_vals))
+        out.prove('time-step-is-the-array-level-result', T.seq(r.attrs['_dt'], want_dt))
+        out.unchanged('x', st['x'])
+
+
+@unit('C14', 'resample_to_approx_dt', functions=['eqsig.fns.time_step.resample_to_approx_dt'],
+      cases=[dict(even=e, regime=r) for e in (True, False) for r in ('refine', 'equal', 'decimate')], modes=('unbounded',))
+def resample(V, even, regime):
+    """Periodic (Fourier) resampling: the step rule, and -- what band-limited exactness under scipy.signal.resample's contract
+    reduces to -- that the number of samples requested is EXACTLY factor * npts and an int."""
+    st = {}
+
+    def setup():
+        import contracts_common_signal as CS
+        CS.install_cache_summaries(V)
+        n = V.size('n', 2)
+        x = V.array('x', n, origin='param')
+        dt, tgt = V.real('dt'), V.real('target_dt')
+        V.assume(dt > 0, tgt > 0)
+        V.assume(dt > tgt if regime == 'refine' else (dt == tgt if regime == 'equal' else dt < tgt))
+        asig = S.make_signal(V, 'AccSignal', x, dt)
+        st.update(n=n, x=x, dt=dt, tgt=tgt)
+        return dict(asig=asig, target_dt=tgt, even=even)
+    for out in V.run('eqsig.fns.time_step.resample_to_approx_dt', setup):
+        n, dt, tgt = st['n'], st['dt'], st['tgt']
+        tag = 'even=%s,%s' % (even, regime)
+        if out.raised is not None:
+            # K3 (known finding): decimation / equal step with even=False hands a float sample count to scipy.signal.resample
+            out.prove('sample-count-passed-to-scipy-is-an-int[%s]' % tag, False, kind='safety')
+            continue
+        r = out.result
+        new_dt = r.attrs['_dt']
+        out.prove('new-step-does-not-exceed-target', T.sle(new_dt, tgt))
+        calls = [c for c in out.cx.cache.get('opaque-calls', []) if c[0] == 'resample']
+        out.prove('one-resample-call', len(calls) == 1)
+        if len(calls) != 1:
+            continue
+        num = calls[0][1][1]
+        # K2 (known finding): with even=True the count is rounded down to an even number but the step still says dt/factor
+        out.prove('sample-count-times-new-step-is-the-record-duration[%s]' % tag, T.seq(T.smul(num, new_dt), T.smul(n, dt)))
+        if even:
+            out.prove('length-even', T.seq(T.smod(num, 2), 0))
+        out.unchanged('x', st['x'])
